@@ -19,11 +19,11 @@ RULE = ("Hypothesis-generated combine tasks in a package of depth 0-3 over 1-5 d
         "with a planted non-link entry the run exits 1 with the conflict diagnostic and the planted tree is unchanged. "
         "Non-trivial = combine and >=1 dep in different packages of different depth, or a later run that moved a link. "
         "Distinct = SHA-1 of case JSON."
-        " In a third of the cases the dependency names are variations of one stem (out, out-tmp, out_tmp, tmp-out, out-new, out-old, out-bak, out-lock, out-1, _out, out_ ...), listed in a generated order. An entry may also be planted as a dangling link of the form Conductor makes (its target version is gone).")
+        " In a third of the cases the dependency names are variations of one stem (out, out-tmp, out_tmp, tmp-out, out-new, out-old, out-bak, out-lock, out-1, _out, out_ ...), listed in a generated order. An entry may also be planted as a dangling link of the form Conductor makes (its target version is gone). Between invocations a newer version of an experiment dependency may appear without the dependency running (restored from elsewhere, with old or current modification times).")
 ASSUMPTIONS = ["nothing is demanded for deps whose output directory is empty or absent (the statement excludes them)",
                "git disabled: the cached version of an experiment is its newest recorded one"]
 ESSENTIAL = ["cross_depth", "relink_new_version", "empty_dep_output", "planted_file", "planted_dir", "planted_emptydir",
-             "group_dep", "combine_dep", "cached_rerun", "depth3", "entry_names_with_temp_file_affixes", "planted_dangling_link"]
+             "group_dep", "combine_dep", "cached_rerun", "depth3", "entry_names_with_temp_file_affixes", "planted_dangling_link", "newer_version_appeared_without_a_run"]
 TECHNIQUE = "property-based testing (Hypothesis) under the virtual kernel; realpath-equality oracle against the directories recorded at spawn"
 LEVEL_TEXT = "Randomised search over combine layouts and run histories; link targets are compared by realpath with the directories the deps actually received."
 LEVEL_NOTE = "Trusted: vf/kernel.py spawn records and file materialisation."
@@ -75,7 +75,11 @@ def _case(draw, tier):
                      # dangling_link: a link as Conductor makes them whose target is gone (the version it pointed to was
                      # garbage-collected, or an interrupted `cond clean` removed it first): still a link Conductor made
                      "plant": draw(st.sampled_from([None] * 5 + ["file", "emptydir", "dir", "dangling_link", "dangling_link"])),
-                     "plant_dep": draw(st.sampled_from(order))})
+                     "plant_dep": draw(st.sampled_from(order)),
+                     # before this invocation a NEWER version of an experiment dependency appears without the dependency
+                     # running here (a `cond restore` of results produced elsewhere; its files keep the archive's old
+                     # modification times): the selected version changes, the entry has to follow
+                     "newver": draw(st.sampled_from([None, None, None, "old_mtime", "now"])) if r > 0 else None})
     seeded = {}
     for i, t in enumerate(tasks):
         if t["kind"] == "exp" and draw(st.sampled_from(range(4))) == 0:
@@ -133,6 +137,19 @@ def _run(case, root):
         c2 = dict(case)
         c2["flags"] = inv["flags"]
         planted = None
+        if inv.get("newver"):
+            exps = [d[0] for d in cmb["deps"] if case["tasks"][d[0]]["kind"] == "exp"]
+            if exps:
+                d_idx = exps[r % len(exps)]
+                ts = 900000 + r
+                vd = projgen.version_dir(root, ids[d_idx], ts)
+                if not os.path.exists(vd):
+                    projgen.seed_rows(root, [(ids[d_idx], ts, None, False)], files=[("data.txt", "restored from elsewhere"), ("sub/x", "x")])
+                    if inv["newver"] == "old_mtime":
+                        for dp, dn, fn in os.walk(vd, topdown=False):
+                            for n in fn + [""]:
+                                os.utime(os.path.join(dp, n) if n else dp, (946684800, 946684800))
+                    labels.add("newer_version_appeared_without_a_run")
         if inv["plant"]:
             dep = case["tasks"][inv["plant_dep"]]
             p = os.path.join(cout, dep["name"])
